@@ -47,7 +47,18 @@ func writeBundle(c *core.Ctx, b *bundle.Bundle, plan core.WriterPlan) written {
 		}
 		w := c.NewWriter("disk", plan)
 		cw := bundle.NewCountingWriter(w)
-		cw.Write(pre)
+		if plan.Chunk > 0 {
+			for rest := pre; len(rest) > 0; { // (a diligent caller on a device that takes Chunk bytes per call)
+				k := len(rest)
+				if k > plan.Chunk {
+					k = plan.Chunk
+				}
+				cw.Write(rest[:k])
+				rest = rest[k:]
+			}
+		} else {
+			cw.Write(pre)
+		}
 		res.panicI = c.Guard("Bundle.WriteTo", func() { res.n, res.err = b.WriteTo(cw) })
 		res.w = core.Unwrap(w)
 		res.data = res.w.Accepted[len(pre):]
@@ -133,6 +144,9 @@ func sameAsModel(c *core.Ctx, rb *bundle.Bundle, lb *gen.LBundle, site string) {
 			g, w := got.Authorities[i], want.Authorities[i]
 			if !bytes.Equal(g.Cert.Raw, w.Cert.Raw) || !bytes.Equal(g.OCSPResponse, w.OCSPResponse) || !bytes.Equal(g.SCTList, w.SCTList) {
 				c.Violation("roundtrip-signatures", site, "authority %d differs", i)
+			}
+			if (g.OCSPResponse == nil) != (w.OCSPResponse == nil) || (g.SCTList == nil) != (w.SCTList == nil) {
+				c.Violation("roundtrip-signatures", site, "authority %d: presence of ocsp / sct changed (ocsp present %v, wrote %v; sct present %v, wrote %v)", i, g.OCSPResponse != nil, w.OCSPResponse != nil, g.SCTList != nil, w.SCTList != nil)
 			}
 		}
 		for i := range want.VouchedSubsets {
@@ -519,7 +533,14 @@ func TestWriterFaults(t *testing.T) {
 			full := ok.data
 			earlierRefusedWrite(c)
 			plan := core.WriterPlan{FailAt: c.Int("disk.failAt", 0, len(full)), Short: c.Bool("disk.short"), ReaderFrom: c.Bool("disk.readerFrom"), Transient: c.Chance("disk.transient", 1, 4)}
-			c.Event("%s; %d bytes; fail at %d short=%v rf=%v", lb.Describe(), len(full), plan.FailAt, plan.Short, plan.ReaderFrom)
+			chunked := c.Chance("disk.chunked", 1, 6)
+			if chunked {
+				// a healthy device that cuts long writes short (n < len(p), io.ErrShortWrite) and
+				// takes the rest when offered again: failing is fine, resuming is fine, a wrong
+				// count or an incomplete file reported as success is not
+				plan = core.WriterPlan{FailAt: -1, Chunk: c.Int("disk.chunk", 1, len(full)+1), ReaderFrom: plan.ReaderFrom}
+			}
+			c.Event("%s; %d bytes; fail at %d short=%v rf=%v chunk=%d", lb.Describe(), len(full), plan.FailAt, plan.Short, plan.ReaderFrom, plan.Chunk)
 			wr := writeBundle(c, lb.ToRepo(), plan)
 			if wr.panicI != nil {
 				c.CheckTotal("Bundle.WriteTo", 0, wr.panicI, 0)
@@ -532,6 +553,13 @@ func TestWriterFaults(t *testing.T) {
 			if wr.err == nil && wr.panicI == nil {
 				// whatever is emitted WITHOUT error is a well-formed bundle, device trouble or not
 				checkWellFormed(c, wr, "no error reported under a device fault")
+			}
+			if chunked {
+				if c.Oracle("C04", "C19") && wr.err == nil && wr.panicI == nil && !bytes.Equal(wr.data, full) {
+					c.Violation("partial-output-reported-as-success", "Bundle.WriteTo/chunking-device", "a device taking %d bytes per call holds %d of %d bytes (or other bytes), WriteTo returned nil", plan.Chunk, len(wr.data), len(full))
+				}
+				c.Outcome("chunked")
+				return
 			}
 			if c.Oracle("C19") {
 				if plan.FailAt < len(full) && wr.err == nil {
@@ -577,6 +605,9 @@ func TestCountingWriter(t *testing.T) {
 				failAt = c.Int("dst.failAt", 0, len(data))
 			}
 			wp := core.WriterPlan{FailAt: failAt, Short: c.Bool("dst.short"), ReaderFrom: c.Bool("dst.readerFrom")}
+			if failAt < 0 && c.Chance("dst.chunked", 1, 5) {
+				wp.Chunk = c.Int("dst.chunk", 1, 40) // a healthy device that cuts long writes short
+			}
 			dst := c.NewWriter("dst", wp)
 			cw := bundle.NewCountingWriter(dst)
 			rp := c.DrawReaderPlan("src", len(data), false)
@@ -631,7 +662,12 @@ func TestCountingWriter(t *testing.T) {
 					c.Violation("counting-writer-data", "CountingWriter", "destination content is not a prefix of the source")
 				}
 				noFault := failAt < 0 || failAt >= len(data)
-				if noFault {
+				if wp.Chunk > 0 && core.Unwrap(dst).Chunked > 0 {
+					// failing is fine, resuming is fine; success means everything arrived
+					if err == nil && !bytes.Equal(acc, data) {
+						c.Violation("counting-writer-dropped", "CountingWriter/chunking-device", "%d of %d bytes reached a device taking %d bytes per call, nil error", len(acc), len(data), wp.Chunk)
+					}
+				} else if noFault {
 					if err != nil {
 						c.Violation("counting-writer-error", "CountingWriter", "error %v on a fault-free copy (clean EOF must be nil)", err)
 					}
